@@ -62,7 +62,10 @@ TReturn == /\ Ev("Return") /\ At /\ Finish /\ Consume
            /\ (~out'.ok => (out'.err = "canceled" <=> Trace[l].err.canceled))
 Silent == (SCheck \/ SWake \/ RStart \/ RLoop \/ TimeoutFire \/ ExtCancel \/ Advance) /\ UNCHANGED l
 
-TNext == TSend \/ TDue \/ TGot \/ TDeadline \/ TCancel \/ TReturn \/ Reset \/ Silent
+\* a scripted reply that becomes readable at the very instant the run has ended (the driver's timers are stopped only after
+\* the engine has returned): nothing reads it any more
+TDueLate == Ev("Due") /\ out.set /\ Consume /\ UNCHANGED vars
+TNext == TSend \/ TDue \/ TDueLate \/ TGot \/ TDeadline \/ TCancel \/ TReturn \/ Reset \/ Silent
 TSpec == TInit /\ [][TNext]_tvars
 
 \* high-water mark of consumed lines (register 1), evaluated as a state constraint on every reached state
